@@ -34,7 +34,7 @@ def _props(P):
         "C10": sim("TestC10", (4, 1200, 300), (16, 12000, 3000), also=[equiv("CreateSchedule,ReadSchedule,DeleteSchedule")]),
         "C11": sim("TestC11", (4, 300, 300), (16, 5000, 3000), regress="TestRegressC11",
                    also=[dict(pkg="kernelq", test="TestC11b", quick=(2, 12, 300), thorough=(8, 150, 1800), env={})]),
-        "C13": P("proc", "TestC13", (3, 4, 600), (12, 40, 3000), extra_env={"VERIF_NEEDS_SERVER": "1", "VERIF_SHRINK": "1ms"}),
+        "C13": P("proc", "TestC13", (3, 4, 900), (12, 40, 3000), extra_env={"VERIF_NEEDS_SERVER": "1", "VERIF_SHRINK": "1ms"}),
         "C14": sim("TestC14", (4, 600, 300), (16, 10000, 3000), also=[equiv("SearchPromises,SearchSchedules"),
                    dict(pkg="front", test="FuzzForgedCursor", quick=(1, 1, 300), thorough=(1, 1, 600), env={}, fuzz=60)]),
         "C15": front("TestC15", (4, 1500, 300), (8, 20000, 1200)),
